@@ -5,7 +5,7 @@
      (set_fixed_true_not_cut), and the decisions of C12 hold at every reachable state. *)
 From FrameModel Require Import Num.QcTac Geometry.Rect Geometry.RectFacts Geometry.SplitFacts
   Alloc.Alloc Alloc.GeomExtra Alloc.RefinesFacts Alloc.AcceptFacts Alloc.OpsFacts Alloc.DecisionFacts
-  Alloc.GriddifyFacts Alloc.Hist.
+  Alloc.GriddifyFacts Alloc.Thr Alloc.ThrFacts Alloc.Hist.
 From Coq Require Import Arith Lia.
 Open Scope list_scope.
 Open Scope Qc_scope.
@@ -74,10 +74,10 @@ Proof.
 Qed.
 
 (* what the flag changes about which cells may be cut *)
-Lemma splittable_set_fixed_true t c : splittable t (cset_fixed true c) = false.
+Lemma splittable_set_fixed_true t c : splittable_x t (cset_fixed true c) = false.
 Proof. reflexivity. Qed.
 Lemma splittable_set_fixed_false t c :
-  splittable t (cset_fixed false c) = negb (is_empty (calloc c)) && forallb (fun p => Qcleb (snd p) t) (calloc c).
+  splittable_x t (cset_fixed false c) = negb (is_empty (calloc c)) && forallb (fun p => le_thr (snd p) t) (calloc c).
 Proof. reflexivity. Qed.
 
 (* ------------------------------------------------------------------ *)
@@ -95,20 +95,15 @@ Proof. intros [Hne Hall]. rewrite Forall_forall in Hall. apply Hall. apply hget_
 Lemma hinit_valid aeps cells : accepted aeps cells -> hvalid aeps (hinit cells).
 Proof. intro A. split; [discriminate|]. constructor; [exact A|constructor]. Qed.
 
-Definition op_ok_on (eps aeps q : Qc) (o : op) (src new : list cell) : Prop :=
-  run_op eps aeps q o src = Some new /\ refines src new /\ accepted aeps new.
+Definition op_ok_on (eps aeps q : Qc) (o : xop) (src new : list cell) : Prop :=
+  run_xop eps aeps q o src = Some new /\ refines src new /\ accepted aeps new.
 
-Lemma run_op_ok eps aeps q o cells : 0 <= aeps -> op_admissible o -> accepted aeps cells ->
+Lemma run_op_ok eps aeps q o cells : 0 <= aeps -> xop_admissible o -> accepted aeps cells ->
   exists new, op_ok_on eps aeps q o cells new.
-Proof.
-  intros Ha Ho Acc. unfold op_ok_on. destruct o as [t l| |]; cbn [run_op].
-  - apply refine_ok; assumption.
-  - apply uniform_ok; assumption.
-  - apply griddify_ok; assumption.
-Qed.
+Proof. intros Ha Ho Acc. unfold op_ok_on. apply run_xop_ok; assumption. Qed.
 
 Definition hop_admissible (o : hop) : Prop :=
-  match o with HApply _ o' => op_admissible o' | _ => True end.
+  match o with HApply _ o' => xop_admissible o' | _ => True end.
 
 (* what an event of an admissible history looks like: [src] = the values of the target when the call was made *)
 Definition event_ok (eps aeps q : Qc) (e : hevent) : Prop :=
@@ -118,7 +113,7 @@ Definition event_ok (eps aeps q : Qc) (e : hevent) : Prop :=
   | HApply _ o' => exists new, ob = ONew (Some new) /\ op_ok_on eps aeps q o' src new
   | HCopy _ => ob = ONew (Some src)
   | HSetFixed _ _ _ _ _ => (exists fl, ob = OFixed fl) \/ ob = OImpossible
-  | HMbr _ t => ob = OBool (must_be_refined t src)
+  | HMbr _ t => ob = OBool (must_be_refined_x t src)
   | HMaxDepth _ => ob = ONat (max_depth src)
   | HNumRect _ => ob = ONat (List.length src)
   | HAreas _ => ob = OAreas (areas_of src)
@@ -256,7 +251,7 @@ Qed.
 
 (* after c.rect.fixed = True for the cell c of A[k] at (x, y), whatever refinement operation is applied to A[k] next
    succeeds and hands that cell over whole (its pieces are the cell itself), whatever was asked of A[k] before *)
-Theorem set_fixed_true_not_cut eps aeps q s k x y after o' s1 fl : 0 <= aeps -> hvalid aeps s -> op_admissible o' ->
+Theorem set_fixed_true_not_cut eps aeps q s k x y after o' s1 fl : 0 <= aeps -> hvalid aeps s -> xop_admissible o' ->
   hstep eps aeps q (HSetFixed k x y true after) s = (s1, OFixed fl) ->
   exists c j new parts, nth_error (hget s1 k) j = Some c /\ at_centre x y c = true /\ fixed (crect c) = true /\
     snd (hstep eps aeps q (HApply k o') s1) = ONew (Some new) /\
@@ -278,36 +273,29 @@ Qed.
 (* ------------------------------------------------------------------ *)
 (* 4. the decisions of C12 at every state of a history                 *)
 (* ------------------------------------------------------------------ *)
-Lemma refine_some_cells aeps t levels cells new : refine aeps t levels cells = Some new ->
-  (0 < levels)%nat /\ refine_cells t levels cells = Some new.
-Proof.
-  unfold refine. destruct levels as [|lv]; [discriminate|]. intro H. split; [lia|].
-  destruct (refine_cells t (S lv) cells) as [x|]; [|discriminate].
-  apply mk_allocation_some in H. subst. reflexivity.
-Qed.
 
 Theorem hist_mbr_iff_changes eps aeps q s k t levels : 0 <= aeps -> hvalid aeps s -> (0 < levels)%nat ->
-  exists new, snd (hstep eps aeps q (HApply k (OpRefine t levels)) s) = ONew (Some new) /\
+  exists new, snd (hstep eps aeps q (HApply k (XRefine t levels)) s) = ONew (Some new) /\
     (snd (hstep eps aeps q (HMbr k t) s) = OBool true <-> new <> hget s k).
 Proof.
   intros Ha V Hl. pose proof (hget_accepted aeps s k V) as Acc.
-  destruct (run_op_ok eps aeps q (OpRefine t levels) (hget s k) Ha Hl Acc) as (new & Er & _ & _).
+  destruct (run_op_ok eps aeps q (XRefine t levels) (hget s k) Ha Hl Acc) as (new & Er & _ & _).
   exists new. split; [cbn [hstep]; rewrite Er; reflexivity|].
-  cbn [run_op] in Er. apply refine_some_cells in Er. destruct Er as [_ Er].
-  pose proof (mbr_iff_changes t levels _ _ (accepted_wf _ _ Acc) Hl Er) as M.
+  cbn [run_xop] in Er. apply refine_x_some_cells in Er. destruct Er as [_ Er].
+  pose proof (mbr_x_iff_changes t levels _ _ (accepted_wf _ _ Acc) Hl Er) as M.
   cbn [hstep snd]. split.
   - intro H. injection H as H. apply M. exact H.
   - intro H. f_equal. apply M. exact H.
 Qed.
 
 Theorem hist_refine_exact eps aeps q s k t levels : 0 <= aeps -> hvalid aeps s -> (0 < levels)%nat ->
-  exists new parts, snd (hstep eps aeps q (HApply k (OpRefine t levels)) s) = ONew (Some new) /\
-    new = concat parts /\ Forall2 (refine_cell_spec t levels) (hget s k) parts.
+  exists new parts, snd (hstep eps aeps q (HApply k (XRefine t levels)) s) = ONew (Some new) /\
+    new = concat parts /\ Forall2 (refine_cell_spec_x t levels) (hget s k) parts.
 Proof.
   intros Ha V Hl. pose proof (hget_accepted aeps s k V) as Acc.
-  destruct (run_op_ok eps aeps q (OpRefine t levels) (hget s k) Ha Hl Acc) as (new & Er & _ & _).
-  pose proof Er as Er'. cbn [run_op] in Er'. apply refine_some_cells in Er'. destruct Er' as [_ Er'].
-  destruct (refine_exact t levels _ _ (accepted_wf _ _ Acc) Er') as (parts & Ec & F).
+  destruct (run_op_ok eps aeps q (XRefine t levels) (hget s k) Ha Hl Acc) as (new & Er & _ & _).
+  pose proof Er as Er'. cbn [run_xop] in Er'. apply refine_x_some_cells in Er'. destruct Er' as [_ Er'].
+  destruct (refine_x_exact t levels _ _ (accepted_wf _ _ Acc) Er') as (parts & Ec & F).
   exists new, parts. split; [cbn [hstep]; rewrite Er; reflexivity|]. split; assumption.
 Qed.
 
@@ -323,13 +311,13 @@ Proof.
 Qed.
 
 Theorem hist_uniform_all_at_max eps aeps q s k : 0 <= aeps -> hvalid aeps s ->
-  exists new, snd (hstep eps aeps q (HApply k OpUniform) s) = ONew (Some new) /\
+  exists new, snd (hstep eps aeps q (HApply k XUniform) s) = ONew (Some new) /\
     Forall (fun p => fixed (crect p) = false -> cdepth p = max_depth (hget s k)) new.
 Proof.
   intros Ha V. pose proof (hget_accepted aeps s k V) as Acc.
-  destruct (run_op_ok eps aeps q OpUniform (hget s k) Ha I Acc) as (new & Er & _ & _).
+  destruct (run_op_ok eps aeps q XUniform (hget s k) Ha I Acc) as (new & Er & _ & _).
   exists new. split; [cbn [hstep]; rewrite Er; reflexivity|].
-  cbn [run_op] in Er. unfold uniform_refinement_depth in Er.
+  cbn [run_xop] in Er. unfold uniform_refinement_depth in Er.
   destruct (Nat.eqb (max_depth (hget s k)) (min_depth (hget s k))) eqn:D.
   - injection Er as <-. apply Nat.eqb_eq in D. apply Forall_forall. intros p Hp _.
     pose proof (max_depth_ge _ _ Hp). pose proof (min_depth_le _ _ Hp). lia.
@@ -345,15 +333,15 @@ Theorem hist_griddify_aligned eps aeps q s k : 0 <= aeps -> hvalid aeps s ->
   let cells := hget s k in
   let xc := fst (gather_boundaries eps (map crect cells)) in
   let yc := snd (gather_boundaries eps (map crect cells)) in
-  exists new, snd (hstep eps aeps q (HApply k OpGriddify) s) = ONew (Some new) /\
+  exists new, snd (hstep eps aeps q (HApply k XGriddify) s) = ONew (Some new) /\
     Forall (fun f => fixed (crect f) = false ->
       (forall x, In x (interior xc) -> xmin (crect f) < x -> x < xmax (crect f) -> refused_x q x cells f) /\
       (forall y, In y (interior yc) -> ymin (crect f) < y -> y < ymax (crect f) -> refused_y q y cells f)) new.
 Proof.
   intros Ha V cells xc yc. pose proof (hget_accepted aeps s k V) as Acc. fold cells in Acc.
-  destruct (run_op_ok eps aeps q OpGriddify cells Ha I Acc) as (new & Er & _ & _).
+  destruct (run_op_ok eps aeps q XGriddify cells Ha I Acc) as (new & Er & _ & _).
   exists new. split; [cbn [hstep]; fold cells; rewrite Er; reflexivity|].
-  cbn [run_op] in Er. unfold griddify in Er.
+  cbn [run_xop] in Er. unfold griddify in Er.
   destruct (griddify_cells eps q cells) as [x|] eqn:G; [|discriminate].
   apply mk_allocation_some in Er. subst x.
   apply (griddify_aligned eps q cells _ (accepted_wf _ _ Acc) (accepted_in_quadrant _ _ Acc) G).
@@ -368,7 +356,7 @@ Proof. intros Ha Acc Hops. apply (hist_ok eps aeps q cells ops Ha Acc Hops). Qed
 Theorem reach_mbr_iff_changes eps aeps q cells ops k t levels :
   0 <= aeps -> accepted aeps cells -> Forall hop_admissible ops -> (0 < levels)%nat ->
   let s := fst (run_hist eps aeps q ops (hinit cells)) in
-  exists new, snd (hstep eps aeps q (HApply k (OpRefine t levels)) s) = ONew (Some new) /\
+  exists new, snd (hstep eps aeps q (HApply k (XRefine t levels)) s) = ONew (Some new) /\
     (snd (hstep eps aeps q (HMbr k t) s) = OBool true <-> new <> hget s k).
 Proof.
   intros Ha Acc Hops Hl s. apply hist_mbr_iff_changes; [exact Ha| |exact Hl].
@@ -380,7 +368,7 @@ Qed.
 Example ex_history :
   hist (qc 1 1048576) (qc 1 1024) (qc 1 100) ex_cells
        [HMbr 0 (qc 1 2); HSetFixed 0 (qc 1 1) (qc 1 1) true [[(qc 1 1, qc 1 1); (qc 3 1, qc 1 1)]];
-        HApply 0 (OpRefine (qc 1 2) 1); HMbr 0 (qc 1 2);
+        HApply 0 (XRefine (qc 1 2) 1); HMbr 0 (qc 1 2);
         HSetFixed 1 (qc 1 1) (qc 1 1) false [[(qc 3 1, qc 1 1)]; [(qc 3 1, qc 1 1)]]; HMbr 0 (qc 1 2);
         HSetFixed 1 (qc 1 1) (qc 1 1) true [[(qc 3 1, qc 1 1)]; [(qc 1 1, qc 1 1); (qc 3 1, qc 1 1)]]; HMbr 0 (qc 1 2);
         HSetFixed 1 (qc 1 1) (qc 1 1) true [[(qc 1 1, qc 1 1)]; [(qc 1 1, qc 1 1); (qc 3 1, qc 1 1)]]] =
